@@ -47,6 +47,8 @@ def run_cli(workdir, jobs, timeout=15, workers=None):
         except subprocess.TimeoutExpired as e:
             res.update(rc=None, timeout=True, out=(e.stdout or b"").decode("utf-8", "replace"), err=(e.stderr or b"").decode("utf-8", "replace"))
         res["wall_ms"] = int((time.time() - t0) * 1000)
+        if j.get("linger"):          # give processes the command may have left behind the time to show themselves
+            time.sleep(j["linger"])
         res["files"] = {}
         for rel in j.get("keep", []):
             p = os.path.join(proj, rel)
